@@ -290,7 +290,7 @@ pub fn property(_tier: Tier) -> Property {
             Box::new(RandomPart {
                 name: "greeting",
                 rule: "proptest: greeting bytes = valid (numeric versions, arbitrary UTF-8 versions, versions beyond 4 KiB and 8-20 KiB) | one byte of the prefix flipped | empty version | invalid UTF-8 | wrong case / missing blank | proper prefix of a valid greeting | empty; one generated segmentation; blocking / async / async+pending connect; judged by the reference greeting classifier: Ok(version verbatim) iff 'OK MPD <non-empty utf8>\\n', InvalidMessage for a malformed line, UnexpectedEof for a viable proper prefix. non-trivial = segmented or not a valid greeting",
-                cases: (20_000, 1_000_000),
+                cases: (20_000, 5_000_000),
                 strategy: Box::new(|_t| {
                     (greeting_bytes(), seg_strategy(40), (0..3usize).prop_map(|i| FLAVOURS[i]))
                         .prop_map(|(bytes, seg, flavour)| GreetingCase { bytes, seg, flavour })
@@ -312,7 +312,7 @@ pub fn property(_tier: Tier) -> Property {
             Box::new(RandomPart {
                 name: "password",
                 rule: "proptest over the simulator: Client::connect / connect_with_password / connect_with_password_opt with printable and multi-byte passwords; server verdict OK | OK with fields | ACK with any code | close | garbage, each optionally cut after 0-49 bytes followed by a close; any segmentation. Write log: first line `password <pw>` (or idle without password), idle only after the verdict was read completely and only if it was OK, ACK => IncorrectPassword and nothing further written, cut/close/garbage => ProtocolError and nothing further written. non-trivial = non-OK verdict or a cut",
-                cases: (10_000, 500_000),
+                cases: (10_000, 3_000_000),
                 strategy: Box::new(|_t| {
                     (prop::option::weighted(0.85, password()), any::<bool>(), crate::props::simgen::seg_pattern(), any::<u64>())
                         .prop_map(|(password, use_opt_api, seg, sched_seed)| PwCase { password, use_opt_api, seg, sched_seed })
